@@ -2,23 +2,41 @@
 use super::*;
 use crate::kani_support::*;
 
-// @ob id=C15.1a strength=complete tier=quick timeout=2400 fn=track/sub/spatial_builder.rs::SpatialTrackDistances::relative_distance
-// @req finite 0 <= min < max <= 1e6 (excludes findings F9: min > max or NaN, and F10: min == max); any non-NaN distance (including +inf)
-// @ens result in [0,1]; exactly 0 at or inside the minimum distance; exactly 1 at or beyond the maximum distance
-#[kani::proof]
-#[kani::unwind(3)]
-fn c15_1a_relative_distance_range() {
+fn any_distances() -> SpatialTrackDistances {
     let min = any_f32_in(0.0, 1.0e6);
     let max = any_f32_in(0.0, 1.0e6);
     kani::assume(min < max);
+    SpatialTrackDistances { min_distance: min, max_distance: max }
+}
+
+// @ob id=C15.1a strength=complete tier=quick timeout=800 fn=track/sub/spatial_builder.rs::SpatialTrackDistances::relative_distance
+// @req finite 0 <= min < max <= 1e6 (excludes findings F9: min > max or NaN, and F10: min == max); any non-NaN distance at or inside the minimum distance, or at or beyond the maximum (including +inf)
+// @ens exactly 0 at or inside the minimum distance (full volume); exactly 1 at or beyond the maximum distance (inaudible)
+#[kani::proof]
+#[kani::unwind(3)]
+fn c15_1a_relative_distance_end_points() {
+    let s = any_distances();
     let d: f32 = kani::any();
-    kani::assume(!d.is_nan());
-    let r = SpatialTrackDistances { min_distance: min, max_distance: max }.relative_distance(d);
-    assert!(r >= 0.0 && r <= 1.0, "C15.1a: relative distance stays in [0,1]");
-    if d <= min { assert!(r == 0.0, "C15.1a: within the minimum distance the relative distance is 0 (full volume)"); }
-    if d >= max { assert!(r == 1.0, "C15.1a: at or beyond the maximum distance it is 1 (inaudible)"); }
-    kani::cover!(d > min && d < max);
-    kani::cover!(d > max);
+    kani::assume(!d.is_nan() && (d <= s.min_distance || d >= s.max_distance));
+    let r = s.relative_distance(d);
+    if d <= s.min_distance { assert!(r == 0.0, "C15.1a: within the minimum distance the relative distance is 0 (full volume)"); }
+    else { assert!(r == 1.0, "C15.1a: at or beyond the maximum distance it is 1 (inaudible)"); }
+    kani::cover!(d > s.max_distance);
+    kani::cover!(d < s.min_distance);
+}
+
+// @ob id=C15.1e strength=complete tier=quick timeout=800 fn=track/sub/spatial_builder.rs::SpatialTrackDistances::relative_distance
+// @req finite 0 <= min < max <= 1e6; distance strictly between them
+// @ens the relative distance stays in [0,1]
+#[kani::proof]
+#[kani::unwind(3)]
+fn c15_1e_relative_distance_range() {
+    let s = any_distances();
+    let d: f32 = kani::any();
+    kani::assume(d > s.min_distance && d < s.max_distance);
+    let r = s.relative_distance(d);
+    assert!(r >= 0.0 && r <= 1.0, "C15.1e: relative distance stays in [0,1]");
+    kani::cover!(r > 0.0 && r < 1.0);
 }
 
 // @ob id=C15.1b strength=bounded tier=thorough timeout=7200 bound="min, max, distances restricted to 4 significant mantissa bits" fn=track/sub/spatial_builder.rs::SpatialTrackDistances::relative_distance
